@@ -244,7 +244,10 @@ func (c *ServerChannel) EstablishSession(
 			negEncryptOpts = append(negEncryptOpts, v.(SessionEncryption))
 		}
 
-		if len(negCompOpts) > 1 || len(negEncryptOpts) > 1 {
+		// Negotiate when there is a choice, or when the only acceptable option is not the one in force
+		if len(negCompOpts) > 1 || len(negEncryptOpts) > 1 ||
+			(len(negCompOpts) == 1 && negCompOpts[0] != c.transport.Compression()) ||
+			(len(negEncryptOpts) == 1 && negEncryptOpts[0] != c.transport.Encryption()) {
 			// Negotiate the session options
 			if err = c.negotiateSession(ctx, negCompOpts, negEncryptOpts); err != nil {
 				return err
